@@ -9,7 +9,8 @@ def udataOf (tbl : CharTable) : UData :=
   { alnum := tbl.alnum, ws := tbl.ws,
     upper := fun c => ((tbl.find c).map (·.upper)).getD [c],
     lower := fun c => ((tbl.find c).map (·.lower)).getD [c],
-    width := fun t => (t.map (fun c => ((tbl.find c).map (·.swidth)).getD 1)).sum }
+    width := fun t => (t.map (fun c => ((tbl.find c).map (·.swidth)).getD 1)).sum,
+    cwidth := fun c => ((tbl.find c).map (·.width)).getD 1 }
 
 def clsOf (tbl : CharTable) (c : Char) : String := ((tbl.find c).map (·.gcb)).getD "Other"
 
